@@ -8,3 +8,10 @@ NA = {}
 C('C04', 'differential oracle: Python big-int model of C conversion + gcc (T)x probe, ASan/UBSan backend',
   'Exploration: every integer/char target type x boundary lattice up to 2**130, floats near every 2**k, all bytes, code points, pointer cdata; each result compared with the model (and with gcc for in-range inputs). Held on the cases generated, not proved.',
   'Trusts gcc for in-range conversions and the Python model elsewhere; only x86-64 Linux observed.')
+
+C('C02', 'differential + byte-image monitor against gcc-built accessors; UBSan/ASan reports in the bitfield code are deciding',
+  'Exploration: every (integer type, width 1..8*sizeof) pair at several bit positions x boundary/random ints on random storage; accept/reject vs range model, read-back, bits outside the C-determined storage mask unchanged, rejected store leaves memory unchanged, value read == value gcc code reads.',
+  'Trusts gcc bitfield code generation as the C view; x86-64 gcc bitfield ABI branch only.')
+C('C03', 'range-model monitor over 12 separately implemented store paths, C-side recorder in a compiled helper module, before/after byte images',
+  'Exploration: 47 integer types (standard, stdint, _Bool, 3 enums) x 12 store paths x boundary lattice up to 2**100 and random ints; accepted iff in range, exact read-back / value received by C, OverflowError and unchanged memory on rejection, error value for out-of-range callback results.',
+  'Trusts the gcc-compiled recorder functions; type ranges from a table that C06 checks against the compiler.')
